@@ -310,7 +310,7 @@ func (fr *Frame) execInstr(ins ssa.Instruction, pc string, st *State) string {
 		for _, r := range x.Results {
 			vals = append(vals, fr.val(r))
 		}
-		fr.rets = append(fr.rets, retPoint{pc: pc, st: st.clone(), vals: vals})
+		fr.rets = append(fr.rets, retPoint{pc: pc, st: st.clone(), vals: vals, pos: vc.g.prog.Fset.Position(x.Pos()).String()})
 	case *ssa.Panic:
 		if fr.top && fr.c != nil && fr.c.Safety["panic"] {
 			fr.callOrd["panic"]++
